@@ -1353,9 +1353,11 @@ package jsonpath
 //@   parsetime
 //@   requires p != nil
 
-// C09/C10 at parse time: what a comparison builds from its two operands.  A literal value ends up on the right and its
-// dynamic type picks the validator of a direct comparison; otherwise a constant ($-rooted) operand ends up on the right and
-// the comparison is deep equality; an ordering whose operands are swapped uses the mirrored comparator.
+// C09/C10 at parse time: what a comparison builds from its two operands.  A constant operand (a literal value or a $-rooted
+// path) ends up on the right; when that is a literal value its dynamic type picks the validator of a direct comparison,
+// otherwise the comparison is deep equality (by value for numbers since fix 9a14618, so which of two constants stays on
+// the right does not change what is selected and is not prescribed); an ordering whose operands are swapped uses the
+// mirrored comparator.
 //@ spec litOf(x *syntaxBasicCompareParameter) bool = isType(x.param, *syntaxQueryParamLiteral)
 //@ spec litVal(x *syntaxBasicCompareParameter) any = asType(x.param, *syntaxQueryParamLiteral).literal[0]
 //@ spec cparamOK(x *syntaxBasicCompareParameter) bool = x != nil && x.param != nil && (litOf(x) ==> asType(x.param, *syntaxQueryParamLiteral) != nil && len(asType(x.param, *syntaxQueryParamLiteral).literal) == 1 && litKind(litVal(x)) && x.isLiteral)
@@ -1363,7 +1365,7 @@ package jsonpath
 //@ spec directFor(c syntaxComparator, v any) bool = isType(c, *syntaxCompareDirectEQ) && asType(c, *syntaxCompareDirectEQ) != nil && (isType(v, float64) ==> isType(asType(c, *syntaxCompareDirectEQ).syntaxTypeValidator, *syntaxBasicNumericTypeValidator)) && (isType(v, bool) ==> isType(asType(c, *syntaxCompareDirectEQ).syntaxTypeValidator, *syntaxBasicBoolTypeValidator)) && (isType(v, string) ==> isType(asType(c, *syntaxCompareDirectEQ).syntaxTypeValidator, *syntaxBasicStringTypeValidator)) && (v == nil ==> isType(asType(c, *syntaxCompareDirectEQ).syntaxTypeValidator, *syntaxBasicNilTypeValidator))
 //@ spec sameOperands(q *syntaxBasicCompareQuery, l *syntaxBasicCompareParameter, r *syntaxBasicCompareParameter) bool = (q.leftParam == l && q.rightParam == r) || (q.leftParam == r && q.rightParam == l)
 // (lv, rv: the literal values of l and r when the comparison was built)
-//@ spec eqBuilt(q *syntaxBasicCompareQuery, l *syntaxBasicCompareParameter, r *syntaxBasicCompareParameter, lv any, rv any) bool = q != nil && sameOperands(q, l, r) && ((litOf(l) || litOf(r)) ==> litOf(q.rightParam)) && ((l.isLiteral || r.isLiteral) ==> q.rightParam.isLiteral) && (litOf(q.rightParam) ? directFor(q.comparator, q.rightParam == r ? rv : lv) : (isType(q.comparator, *syntaxCompareDeepEQ) && asType(q.comparator, *syntaxCompareDeepEQ) != nil))
+//@ spec eqBuilt(q *syntaxBasicCompareQuery, l *syntaxBasicCompareParameter, r *syntaxBasicCompareParameter, lv any, rv any) bool = q != nil && sameOperands(q, l, r) && ((l.isLiteral || r.isLiteral) ==> q.rightParam.isLiteral) && (litOf(q.rightParam) ? directFor(q.comparator, q.rightParam == r ? rv : lv) : (isType(q.comparator, *syntaxCompareDeepEQ) && asType(q.comparator, *syntaxCompareDeepEQ) != nil))
 //@ spec constRight(q *syntaxBasicCompareQuery, l *syntaxBasicCompareParameter, r *syntaxBasicCompareParameter) bool = (l.isLiteral || r.isLiteral) ==> q.rightParam.isLiteral
 //@ spec geBuilt(q *syntaxBasicCompareQuery, l *syntaxBasicCompareParameter, r *syntaxBasicCompareParameter) bool = q != nil && q.comparator != nil && constRight(q, l, r) && ((q.leftParam == l && q.rightParam == r && isType(q.comparator, *syntaxCompareGE)) || (q.leftParam == r && q.rightParam == l && isType(q.comparator, *syntaxCompareLE)))
 //@ spec gtBuilt(q *syntaxBasicCompareQuery, l *syntaxBasicCompareParameter, r *syntaxBasicCompareParameter) bool = q != nil && q.comparator != nil && constRight(q, l, r) && ((q.leftParam == l && q.rightParam == r && isType(q.comparator, *syntaxCompareGT)) || (q.leftParam == r && q.rightParam == l && isType(q.comparator, *syntaxCompareLT)))
